@@ -23,13 +23,13 @@ Qed.
 
 (* ---------- (b) the minimum search over the operator list ---------- *)
 Section PairMin.
-  Variables (m : metric (T:=R)) (a1 a2 : satom (T:=R)).
+  Variables (m : metric (T:=R)) (same : bool) (a1 a2 : satom (T:=R)).
   Definition dk_of (s : sop (T:=R)) : R := snd (candidate ROps m s a1 a2).
   Definition biased (n : nat) (dk : R) : R := match n with 0%nat => dk | _ => dk + 1 / 10000 end.
-  Definition qualifies (n : nat) (s : sop (T:=R)) : Prop := ~ 53 / 10 < dk_of s /\ 1 / 100 < biased n (dk_of s).
+  Definition qualifies (n : nat) (s : sop (T:=R)) : Prop := ~ 53 / 10 < dk_of s /\ (1 / 100 < biased n (dk_of s) \/ same = false).
 
   Lemma step_cases st n s :
-    let st' := sdm_step ROps m a1 a2 st (n, s) in
+    let st' := sdm_step ROps m same a1 a2 st (n, s) in
     (qualifies n s /\ biased n (dk_of s) <= fst st /\ st' = (biased n (dk_of s), Some (biased n (dk_of s), n)))
     \/ ((~ qualifies n s \/ fst st < biased n (dk_of s)) /\ st' = st).
   Proof.
@@ -41,15 +41,18 @@ Section PairMin.
     destruct (ltb ROps (53 / 10) (dk_of s)) eqn:E1.
     - right. split; [|reflexivity]. left. intros [Q _]. apply Q. apply ltb_true in E1. exact E1.
     - apply ltb_false in E1.
-      destruct (ltb ROps (1 / 100) (biased n (dk_of s))) eqn:E2; cbn [andb].
-      + apply ltb_true in E2. destruct (ltb ROps mind (biased n (dk_of s))) eqn:E3; cbn [negb].
+      destruct (ltb ROps (1 / 100) (biased n (dk_of s)) || negb same) eqn:E2; cbn [andb].
+      + assert (G : 1 / 100 < biased n (dk_of s) \/ same = false).
+        { apply orb_true_iff in E2. destruct E2 as [E2 | E2]; [left; apply ltb_true in E2; exact E2 | right; destruct same; [discriminate | reflexivity]]. }
+        destruct (ltb ROps mind (biased n (dk_of s))) eqn:E3; cbn [negb].
         * right. split; [|reflexivity]. right. apply ltb_true in E3. exact E3.
         * left. apply ltb_false in E3. split; [split; assumption|]. split; [lra | reflexivity].
-      + right. split; [|reflexivity]. left. intros [_ Q]. apply ltb_false in E2. contradiction.
+      + right. split; [|reflexivity]. left. intros [_ Q]. apply orb_false_iff in E2. destruct E2 as [E2 E2'].
+        apply ltb_false in E2. destruct Q as [Q | Q]; [contradiction | rewrite Q in E2'; discriminate].
   Qed.
 
   Lemma fold_spec l : forall mind best,
-    let r := fold_left (sdm_step ROps m a1 a2) l (mind, best) in
+    let r := fold_left (sdm_step ROps m same a1 a2) l (mind, best) in
     fst r <= mind /\
     (forall n s, In (n, s) l -> qualifies n s -> fst r <= biased n (dk_of s)) /\
     ((r = (mind, best) /\ forall n s, In (n, s) l -> qualifies n s -> mind < biased n (dk_of s))
@@ -90,7 +93,7 @@ Section PairMin.
   (* the distance reported for an ordered pair is the least biased wrapped length over all qualifying operators,
      and the reported operator realises it; nothing is reported exactly when no operator qualifies *)
   Theorem pair_min_spec (ops : list (sop (T:=R))) :
-    match pair_min ROps m ops a1 a2 with
+    match pair_min ROps m ops same a1 a2 with
     | Some (d, n) => exists s, nth_error ops n = Some s /\ qualifies n s /\ d = biased n (dk_of s) /\
                                forall n' s', nth_error ops n' = Some s' -> qualifies n' s' -> d <= biased n' (dk_of s')
     | None => forall n' s', nth_error ops n' = Some s' -> ~ qualifies n' s'
@@ -101,7 +104,7 @@ Section PairMin.
     destruct L3 as [(E & N) | (n & s & I & Q & E)]; rewrite E in *; cbn [snd fst] in *.
     - intros n' s' Hn Q'.
       assert (I : In (n', s') (number_from 0 ops)) by (apply number_from_In; split; [lia | rewrite Nat.sub_0_r; exact Hn]).
-      specialize (N n' s' I Q'). destruct Q' as [Q1 Q2]. change (cst ROps 1000000 1) with 1000000 in N.
+      specialize (N n' s' I Q'). destruct Q' as [Q1 _]. change (cst ROps 1000000 1) with 1000000 in N.
       assert (biased n' (dk_of s') <= 53 / 10 + 1 / 10000) by (destruct n'; cbn [biased]; lra). lra.
     - apply number_from_In in I. destruct I as [_ I]. rewrite Nat.sub_0_r in I.
       exists s. split; [exact I|]. split; [exact Q|]. split; [reflexivity|].
@@ -111,13 +114,13 @@ Section PairMin.
 End PairMin.
 
 (* top-level restatement (section variables made explicit) *)
-Lemma pair_min_correct (m : metric (T:=R)) (a1 a2 : satom (T:=R)) (ops : list (sop (T:=R))) :
-  match pair_min ROps m ops a1 a2 with
-  | Some (d, n) => exists s, nth_error ops n = Some s /\ qualifies m a1 a2 n s /\ d = biased n (dk_of m a1 a2 s) /\
-                             forall n' s', nth_error ops n' = Some s' -> qualifies m a1 a2 n' s' -> d <= biased n' (dk_of m a1 a2 s')
-  | None => forall n' s', nth_error ops n' = Some s' -> ~ qualifies m a1 a2 n' s'
+Lemma pair_min_correct (m : metric (T:=R)) (same : bool) (a1 a2 : satom (T:=R)) (ops : list (sop (T:=R))) :
+  match pair_min ROps m ops same a1 a2 with
+  | Some (d, n) => exists s, nth_error ops n = Some s /\ qualifies m same a1 a2 n s /\ d = biased n (dk_of m a1 a2 s) /\
+                             forall n' s', nth_error ops n' = Some s' -> qualifies m same a1 a2 n' s' -> d <= biased n' (dk_of m a1 a2 s')
+  | None => forall n' s', nth_error ops n' = Some s' -> ~ qualifies m same a1 a2 n' s'
   end.
-Proof. exact (pair_min_spec m a1 a2 ops). Qed.
+Proof. exact (pair_min_spec m same a1 a2 ops). Qed.
 
 (* ---------- (c) the bond rule ---------- *)
 Lemma bond_rule (a1 a2 : satom (T:=R)) (d : R) : 0 < d ->
